@@ -7,6 +7,7 @@ import Driver.TwoPass
 import Driver.Sim
 import Driver.Mem
 import Driver.FileIO
+import Driver.Det
 import Driver.Link
 
 def dispatch (line : String) : String :=
@@ -35,6 +36,8 @@ def dispatch (line : String) : String :=
   | "wr" :: args => Driver.FileIO.handleWr args
   | "s0" :: args => Driver.FileIO.handleS0 args
   | "rd" :: args => Driver.FileIO.handleRd args
+  | "det" :: args => Driver.Det.handle args
+  | "detold" :: args => Driver.Det.handleBefore args
   | "link" :: args => Driver.Link.handle args
   | _ => "bad-op"
 
